@@ -111,6 +111,7 @@ type FuncDef struct {
 	Params  []*Var
 	Results []*Ty
 	Level   int // a function calls only functions of lower level: no unbounded recursion
+	Variadic *Ty // element type of a trailing `vs ...T` parameter, nil if none
 }
 
 // Meta describes what a generated program contains.
@@ -240,7 +241,7 @@ func (g *G) lit(t *Ty) string {
 	case "bool":
 		return rx.Pick(g.rt, "blit", "true", "false")
 	case "string":
-		return rx.Pick(g.rt, "slit", `""`, `"a"`, `"go"`, `"hello"`, `"x,y,z"`, `" pad "`, `"héllo"`, `"a,,b,"`, `",lead"`)
+		return rx.Pick(g.rt, "slit", `""`, `"a"`, `"go"`, `"hello"`, `"x,y,z"`, `" pad "`, `"héllo"`, `"a,,b,"`, `",lead"`, `"€uro"`, `"日本"`)
 	case "slice":
 		n := rx.Range(g.rt, "nelems", 0, 4)
 		var parts []string
@@ -915,6 +916,18 @@ func (g *G) assignStmt() {
 		case 1:
 			g.meta.feat("mapdelete")
 			g.line("delete(%s, %s)", v.Name, key)
+			if rx.Chance(g.rt, "reinsertsame", 1, 2) {
+				// the same key comes back: a range visits it once, and len agrees with the number of visits
+				g.meta.feat("mapreinsert")
+				cnt, k := g.fresh("cnt"), g.fresh("k")
+				g.line("%s[%s] = %s", v.Name, key, g.expr(t.Elem, 1))
+				g.line("%s := 0", cnt)
+				g.line("for %s := range %s {", k, v.Name)
+				g.line("\t_ = %s", k)
+				g.line("\t%s++", cnt)
+				g.line("}")
+				g.line("fmt.Println(\"recount\", %s, len(%s))", cnt, v.Name)
+			}
 		default:
 			if t.Elem.numeric() {
 				g.meta.feat("mapopassign")
@@ -1079,6 +1092,13 @@ func (g *G) forStmt() {
 		sv := g.fresh("rs")
 		g.line("%s := %s", sv, g.expr(tString, 1))
 		// strings grow in loops: bound the iteration count (cutting a rune in half is fine: range then yields U+FFFD)
+		if rx.Chance(g.rt, "cutlead", 1, 3) {
+			// drop the first bytes as well: what is left may start inside a rune, so that valid text follows bytes that
+			// are not valid UTF-8 (each of those is one U+FFFD, one byte wide)
+			g.line("if len(%s) > 2 {", sv)
+			g.line("\t%s = %s[%d:]", sv, sv, rx.Range(g.rt, "leadcut", 1, 2))
+			g.line("}")
+		}
 		g.line("if len(%s) > 4 {", sv)
 		g.line("\t%s = %s[:4]", sv, sv)
 		g.line("}")
@@ -1137,10 +1157,13 @@ func (g *G) switchStmt() {
 			g.line("switch %s {", g.operand(tagTy, 1))
 		}
 	}
-	n := rx.Range(g.rt, "ncases", 1, 3)
+	n := rx.Pick(g.rt, "ncases", 1, 2, 3, 1, 2, 0)
 	defAt := -1
-	if rx.Chance(g.rt, "hasdefault", 2, 3) {
+	if rx.Chance(g.rt, "hasdefault", 2, 3) || n == 0 {
 		defAt = rx.Uniform(g.rt, n+1, "defpos")
+	}
+	if n == 0 {
+		g.meta.feat("defaultonly") // a switch without case clauses: only the default block
 	}
 	used := map[string]bool{}
 	for i := 0; i <= n; i++ {
@@ -1215,6 +1238,27 @@ func (g *G) callStmt() {
 	var args []string
 	for _, p := range f.Params {
 		args = append(args, g.argFor(p.T))
+	}
+	if f.Variadic != nil {
+		vt := &Ty{K: "slice", Elem: f.Variadic}
+		switch rx.Uniform(g.rt, 5, "variadicform") {
+		case 0: // no surplus argument
+		case 1: // a slice is passed through
+			if v := g.pickVar("spreadvar", func(v *Var) bool { return v.T.eq(vt) }); v != nil {
+				args = append(args, v.Name+"...")
+			} else {
+				args = append(args, g.lit(vt)+"...")
+			}
+			g.meta.feat("variadicspread")
+		default: // constants (untyped: they take the element type) and typed operands
+			for k := rx.Range(g.rt, "nsurplus", 1, 3); k > 0; k-- {
+				if rapid.Bool().Draw(g.rt, "surpluslit") {
+					args = append(args, g.lit(f.Variadic))
+				} else {
+					args = append(args, g.expr(f.Variadic, 1))
+				}
+			}
+		}
 	}
 	target := f.Name
 	if f.Recv >= 0 {
@@ -1386,6 +1430,10 @@ func (g *G) genFunc(out *strings.Builder, level int) {
 		}
 		f.Params = append(f.Params, p)
 	}
+	if rx.Chance(g.rt, "variadic", 1, 4) {
+		f.Variadic = rx.Pick(g.rt, "variadicty", tInt, tF64, tU8, tF64)
+		g.meta.feat("variadicfn")
+	}
 	nr := rx.Weighted(g.rt, "nresults", 2, 5, 2)
 	for i := 0; i < nr; i++ {
 		f.Results = append(f.Results, g.anyTyResult())
@@ -1404,6 +1452,13 @@ func (g *G) genFunc(out *strings.Builder, level int) {
 	g.curFn = f
 	g.depth = 0
 	g.line("fmt.Println(\"enter %s\")", f.Name)
+	if f.Variadic != nil {
+		// the surplus arguments arrive with the declared element type, whatever constants the caller wrote
+		g.declare(&Var{Name: "vs", T: &Ty{K: "slice", Elem: f.Variadic}, ReadOnly: true})
+		g.line("for _, v := range vs {")
+		g.line("\tfmt.Println(\"v\", v, v/2, v+100)")
+		g.line("}")
+	}
 	g.stmts(rx.Range(g.rt, "nfnstmts", 1, 6))
 	if nr > 0 {
 		var rs []string
@@ -1419,6 +1474,9 @@ func (g *G) genFunc(out *strings.Builder, level int) {
 	var ps []string
 	for _, p := range f.Params {
 		ps = append(ps, p.Name+" "+p.T.String())
+	}
+	if f.Variadic != nil {
+		ps = append(ps, "vs ..."+f.Variadic.String())
 	}
 	var rs []string
 	for _, rt := range f.Results {
